@@ -6,6 +6,7 @@ import (
 	"bytes"
 	"errors"
 	"fmt"
+	"net/netip"
 	"slices"
 	"strings"
 	"testing"
@@ -251,6 +252,8 @@ type ReuseCase struct {
 	Lines  []vp.S `json:"lines"`
 	PreLen int    `json:"pre_len"`
 	PreCap int    `json:"pre_cap"`
+	// PreAddr, if not empty, is parsed into the receiver's Addr beforehand.
+	PreAddr string `json:"pre_addr,omitempty"`
 }
 
 // checkReuse: every call on a reused receiver gives the reference outcome of
@@ -268,6 +271,9 @@ func checkReuse(c ReuseCase) error {
 	rec := hostsfile.Record{}
 	if c.PreCap > 0 || c.PreLen > 0 {
 		rec.Names = make([]string, c.PreLen, max(c.PreCap, c.PreLen))
+	}
+	if c.PreAddr != "" {
+		rec.Addr, _ = netip.ParseAddr(c.PreAddr) // a receiver whose Addr the caller (or an earlier use) has set
 	}
 	counts := map[int]bool{}
 	lineBuf := make([]byte, 0, 512) // one line buffer for the whole "file", as a scanner has
@@ -302,13 +308,14 @@ func checkReuse(c ReuseCase) error {
 var reuseProp = vp.Register(vp.Prop[ReuseCase]{
 	Kind: "c07.reuse", Base: 15000,
 	Gen: func(t *rapid.T) ReuseCase {
-		c := ReuseCase{PreLen: rapid.IntRange(0, 3).Draw(t, "prelen"), PreCap: rapid.IntRange(0, 9).Draw(t, "precap")}
+		c := ReuseCase{PreLen: rapid.IntRange(0, 3).Draw(t, "prelen"), PreCap: rapid.IntRange(0, 9).Draw(t, "precap"),
+			PreAddr: rapid.SampledFrom([]string{"", "", "fe80::1%eth0", "fe80::1%ETH0", "10.0.0.1", "::1"}).Draw(t, "preaddr")}
 		n := rapid.IntRange(2, 7).Draw(t, "n")
 		for i := 0; i < n; i++ {
 			switch rapid.IntRange(0, 3).Draw(t, "kind") {
 			case 0:
 				k := rapid.IntRange(1, 9).Draw(t, "names")
-				line := rapid.SampledFrom([]string{"10.0.0.1", "::1", "fe80::1%eth0"}).Draw(t, "addr")
+				line := rapid.SampledFrom([]string{"10.0.0.1", "::1", "fe80::1%eth0", "fe80::1%ETH0", "fe80::1%Eth0", "FE80::1%eth0", "fe80:0::1%eth0", "fe80::1%eth\u212a", "::ffff:10.0.0.1", "10.0.0.1"}).Draw(t, "addr")
 				for j := 0; j < k; j++ {
 					line += " " + rapid.SampledFrom([]string{"a", "B.example", "host-" + fmt.Sprint(i), "xn--e1afmkfd.test", "-bad"}).Draw(t, "name")
 				}
